@@ -289,7 +289,7 @@ static void pipeHangKey(char* buf, size_t n) {
     snprintf(buf, n, "no-exception");
 }
 
-static void pipeProgram(int focus, bool handoff = false) {
+static void pipeProgram(int focus, bool handoff = false, bool saturate = false) {
   PRun r;
   memset(&r, 0, sizeof r);
   new (&r) PRun();
@@ -316,6 +316,26 @@ static void pipeProgram(int focus, bool handoff = false) {
     for (int s = 0; s < r.nStages; ++s) {
       r.limit[s] = s == u ? (long)dispenso::kStageNoLimit : (chance(2, 3) ? 1 : 2);
       r.work[s] = s == u ? range(0, 80) : range(0, 4);
+    }
+  }
+  if (saturate) {
+    // one slow stage whose limit equals (or just exceeds) the number of pool threads, fed faster than it
+    // drains: every pool thread is inside it when the calling thread, helping in pipeline()'s wait, looks
+    // for more work.  A limit is a limit on invocations, whoever runs them.
+    nThreads = range(1, 3);
+    static const int shapes[] = {1, 3, 5};
+    shape = oneOf(shapes);
+    planStages(shape);
+    r.nItems = range(6, 30);
+    int k = range(1, r.nStages - 1);
+    for (int s = 0; s < r.nStages; ++s) {
+      if (s == k) {
+        r.limit[s] = nThreads + (chance(1, 3) ? 1 : 0);
+        r.work[s] = range(15, 80);
+      } else {
+        r.limit[s] = s == 0 ? 1 : (chance(1, 2) ? (long)dispenso::kStageNoLimit : 4);
+        r.work[s] = range(0, 2);
+      }
     }
   }
   sim_note("pool", nThreads);
@@ -394,6 +414,9 @@ static void wlPipe27h() {
 static void wlPipe28() {
   pipeProgram(28);
 }
+static void wlPipe28s() {
+  pipeProgram(28, false, true);
+}
 static void wlPipe29() {
   pipeProgram(29);
 }
@@ -403,4 +426,5 @@ static void wlPipe29() {
 HX_WORKLOAD("C27", "pipeline", wlPipe27, SF_ALL, 6000000, 6000000, 1);
 HX_WORKLOAD("C27", "pipeline-handoff", wlPipe27h, SF_ALL, 6000000, 6000000, 3);
 HX_WORKLOAD("C28", "pipeline-limits", wlPipe28, SF_ALL, 6000000, 6000000, 1);
+HX_WORKLOAD("C28", "pipeline-saturated", wlPipe28s, SF_ALL, 6000000, 6000000, 1);
 HX_WORKLOAD("C29", "pipeline-throw", wlPipe29, SF_ALL, 6000000, 6000000, 1);
